@@ -5,4 +5,4 @@ THEOREMS = ['reopen_preserves', 'rebuild_preserves_markers', 'rebuild_preserves_
 
 
 def run():
-    run_store('C16', THEOREMS, """Focus: reopen / rebuild inserted at every position of histories containing removed, replaced, deleted, ephemeral and failed-store leftovers, markers with empty / long / binary identifiers, repeated rebuilds, 0-2 extra tables with rows; oracle (model-free): battery before = battery after; after rebuild the event space equals that of the retrievable events alone (8-byte alignment per event) and both backup files exist.""", {'reply', 'live', 'markers', 'extra', 'preserve', 'bytes'}, relevant={'OPN', 'RBD', 'XPT', 'XDP', 'STA', 'OFF'})
+    run_store('C16', THEOREMS, """Focus: reopen / rebuild inserted at every position of histories containing removed, replaced, deleted, ephemeral and failed-store leftovers, markers with empty / long / binary identifiers, repeated rebuilds, 0-2 extra tables with rows; oracle (model-free): battery before = battery after; after rebuild the event space equals that of the retrievable events alone (8-byte alignment per event) and both backup files exist.""", {'reply', 'live', 'markers', 'extra', 'preserve', 'bytes'}, relevant={'OPN', 'RBD', 'XPT', 'XDP', 'STA', 'OFF', 'MLN'})
